@@ -64,7 +64,7 @@ func runC06(c *Ctx) {
 	if p == nil {
 		return
 	}
-	c.Explain = "E1 on conf.IsValidPathName (nil return ⇒ non-empty ∧ no leading/trailing slash ∧ charset match ∧ no '.'/'..' segment; the yield closure of the segment loop continues only for other segments), " +
+	c.Explain = "E1 on conf.IsValidPathName (nil return ⇒ non-empty ∧ no leading/trailing slash ∧ charset match ∧ no '.'/'..' segment; the segment loop - a range over strings.SplitSeq(name, \"/\") (yield closure), a counter loop over strings.Split(name, \"/\"), or slices.Contains tests of the split - continues only past segments other than '.' and '..' and success is reached only through the loop's exit), " +
 		"E7 on the charset pattern constant (parsed with regexp/syntax: ^[class]+$ with class ⊆ [0-9A-Za-z_-/.]), " +
 		"E1 on conf.FindPathConf (success ⇒ IsValidPathName(name)==nil, or a map hit on a configuration with Regexp==nil) and (*conf.Path).validate (success ⇒ all/all_others ∨ IsValidPathName(name)==nil ∨ regexp key; Regexp is stored only for all/regexp keys), " +
 		"E2/E5 on every strings.ReplaceAll(_, \"%path\", X) in the module: X is classified through struct-field stores and call sites as validated (dominating IsValidPathName/FindPathConf success on the same value), static configuration key (…Name / map key guarded by Regexp==nil), or tabled; " +
@@ -126,24 +126,22 @@ func c06ValidName(c *Ctx, p *Prog) {
 		c.Check("C06.valid_name.trailing_slash", "conf.IsValidPathName: trailing test indexes len(name)-1", false, p.Pos(fn.Pos()), "no comparison of a non-constant index of name with '/'")
 	}
 
-	// dot segments: the range-over-func body
-	y := p.Func("internal/conf", "", "IsValidPathName$1")
-	if y == nil || y.Blocks == nil {
-		c.Check("C06.valid_name.dot_segments", "conf.IsValidPathName: segment loop rejects '.' and '..'", false, p.Pos(fn.Pos()), "no loop body (yield closure) found in IsValidPathName")
-	} else {
+	// dot segments: every '/'-separated segment is examined and neither "." nor
+	// ".." lets the function succeed. Decided for the yield closure of a
+	// range-over-func loop over strings.SplitSeq (below), for a counter loop over
+	// strings.Split and for slices.Contains tests (prop_gen_c06.go).
+	ys, loops := c06YieldClosures(fn), c06IndexLoops(fn)
+	for _, l := range loops {
+		c.Analysed(fnName(l.fn))
+		c06DotSegmentsIndexed(c, p, fn, l)
+	}
+	if len(ys) == 0 && len(loops) == 0 && !c06DotSegmentsContains(c, p, fn) {
+		c.Check("C06.valid_name.dot_segments", "conf.IsValidPathName: segment loop rejects '.' and '..'", false, p.Pos(fn.Pos()), "no loop over strings.SplitSeq(name, \"/\") / strings.Split(name, \"/\") and no slices.Contains test of the segments found in IsValidPathName")
+	}
+	for _, y := range ys {
 		c.Analysed(fnName(y))
-		// the loop ranges over strings.SplitSeq(name, "/")
-		seq := false
-		eachInstr(fn, func(i ssa.Instruction) {
-			cc := callCommon(i)
-			if cc == nil || len(cc.Args) != 1 {
-				return
-			}
-			if mc, ok := cc.Args[0].(*ssa.MakeClosure); ok && mc.Fn == y {
-				seq = desc(cc.Value) == `strings.SplitSeq($0, "/")`
-			}
-		})
-		c.Check("C06.valid_name.dot_segments", "conf.IsValidPathName: loop ranges over strings.SplitSeq(name, \"/\")", seq, p.Pos(y.Pos()), "")
+		// the loop ranges over strings.SplitSeq(name, "/") (by construction of ys)
+		c.Check("C06.valid_name.dot_segments", "conf.IsValidPathName: loop ranges over strings.SplitSeq(name, \"/\")", true, p.Pos(y.Pos()), "")
 		c.MustPass(p, y, "C06.valid_name.dot_segments", "continue (yield returns true)", retBool(0, true), F(`($0 == ".")`))
 		c.MustPass(p, y, "C06.valid_name.dot_segments", "continue (yield returns true)", retBool(0, true), F(`($0 == "..")`))
 		// a rejected segment makes the function return a non-nil error
